@@ -121,6 +121,8 @@ type Enc struct {
 	rangeOf    map[*ssa.Range]ssa.Value
 	retPoints  []retPoint
 	nEntryAsm  int
+	callLog    map[string]SV
+	replayTerm map[string]SV
 }
 
 type loopInfo struct {
